@@ -161,7 +161,12 @@ func Intersection(input ...*Dimension) []Key {
 		if allMatch {
 			result = append(result, val)
 		}
+		// step 4: move past val; a dimension that already stands on a larger
+		//   element must keep it, it can still be matched in a later round
 		for _, dim := range sd {
+			if !bytes.Equal(dim.current(), val) {
+				continue
+			}
 			dim.i++
 			if dim.i == dim.l {
 				return result
